@@ -211,6 +211,10 @@ def run(chk, tier, seed, prop=None):
                 chk.violation({"engine": "status-cap", "fits": ev["cap"] >= ev["len"], "code": ev["code"]},
                               f"message {ev['text']!r} on a {ev['cap']}-byte response buffer (full response {ev['len']} bytes): returned {ev['code']}, identical to the growable run: {ev['same']}, within capacity: {ev['within']}",
                               {"line": b[1], "event": ev})
+            elif ev["ev"] == "plainstb":
+                chk.violation({"engine": "status-plain", "esb": bool(ev["esr"] & ev["ese"]), "mav": ev["mav"]},
+                              f"plain IEEE 488.2 device (provided IEEE4882::stb): *STB? with ESR={ev['esr']} ESE={ev['ese']} SRE={ev['sre']} mav={ev['mav']} answered {ev['stb']} (registers unchanged: {ev['same']}); allowed {b[2]['allowed']}",
+                              {"line": b[1], "event": ev})
             elif ev["ev"] == "msg":
                 d = closest(b[2]["allowed"], ev["ret"], ev["resps"], ev["post"])
                 sig = {"engine": "status-trace", "diff": ",".join(d)}
@@ -227,7 +231,8 @@ def run(chk, tier, seed, prop=None):
                        f"traces: {msgs} seeded random messages (1-3 units, full 8/16-bit values) per device")
     chk.assumptions += ["device wired as examples/minimal_scpi.rs (handle_error -> push_error, stb -> scpi_stb, cls -> scpi_cls, opc -> scpi_opc)",
                         "exhaustive part bounded to the register bits / values listed in coverage.engines; full-width values only in recorded traces",
-                        "STB bits 3/7 are required only where condition&enable and event&enable agree (the property does not choose)"]
+                        "STB bits 3/7 are required only where condition&enable and event&enable agree (the property does not choose)",
+                        "C16 also reads *STB? on a plain IEEE 488.2 device that keeps the provided IEEE4882::stb() (672 register/mav combinations)"]
 
 
 def cap_trace(chk, tier, seed):
